@@ -95,6 +95,12 @@ def check(run):
         one_case(run, specs, "momentum", T)
         one_case(run, specs, "angmom", T)
         run.count("transform " + lab)
+    from checks.common import structural_families
+    for n_, (lab, sp_, T) in enumerate(structural_families(run)):
+        one_case(run, sp_, "angmom" if n_ % 2 else "momentum", T)
+        if run.tier != "quick":
+            one_case(run, sp_, "momentum" if n_ % 2 else "angmom", T)
+        run.count(lab)
     from checks.common import custom_order_family
     for k in range(2 if run.tier == "quick" else 8):
         sp_ = custom_order_family(rng, (2, 1) if k % 2 else (1, 3))
